@@ -1341,7 +1341,7 @@ def generate(template_path, repo, canary=False, contracts_dir=None, exclude=None
             continue
         if s.startswith("//@body "):
             spec = parse_kv(s[len("//@body "):])
-            loop_inv, inserts, skips, outlines, types, assumed, inlines = {}, [], [], [], [], [], []
+            loop_inv, inserts, skips, outlines, types, assumed, inlines, unreach = {}, [], [], [], [], [], [], []
             j = i + 1
             while tl[j].strip() != "//@endbody":
                 d = tl[j].strip()
@@ -1358,6 +1358,11 @@ def generate(template_path, repo, canary=False, contracts_dir=None, exclude=None
                 m = re.match(r'//@assume-region\s+/(.+?)/\.\./(.+?)/\s*(?:#(\d+))?\s+call="(.*?)"\s+why="(.*)"$', d)
                 if m:
                     assumed.append((m.group(1), m.group(2), int(m.group(3) or 1), m.group(4), m.group(5)))
+                    j += 1
+                    continue
+                m = re.match(r"//@unreachable-block\s+/(.+)/\s*(?:#(\d+))?$", d)
+                if m:
+                    unreach.append((m.group(1), int(m.group(2) or 1)))
                     j += 1
                     continue
                 m = re.match(r"//@type\s+(\w+)\s*=\s*(.+)$", d)
@@ -1450,6 +1455,17 @@ def generate(template_path, repo, canary=False, contracts_dir=None, exclude=None
                 G.units[unit]["drops"].append("outline: lines %d-%d (the region verified by unit %s) replaced by a call to that unit's function `%s`"
                                               % (first_line + text.count("\n", 0, s0), first_line + text.count("\n", 0, e0), ou, call))
                 text = text[:s0] + call + "\n" * text[s0:e0].count("\n") + text[e0:]
+            # `//@unreachable-block /re/ [#k]`: the body of the `if .. {` block that starts on the matching line is replaced by
+            # `return must_not_reject_v();` (`requires false`): Verus must PROVE that the block is never entered under the unit's
+            # precondition, so what it contains does not matter for this unit
+            for (r1, occ) in unreach:
+                s0, e0 = region_span(text, r1, r1, occ)
+                blk = text[s0:e0]
+                ob = blk.index("{")
+                cb = blk.rindex("}")
+                G.units[unit]["drops"].append("unreachable-block: the body of `%s` (lines %d-%d) is replaced by `must_not_reject_v()`: proved unreachable under the unit's precondition"
+                                              % (" ".join(blk[:ob].split())[:60], first_line + text.count("\n", 0, s0), first_line + text.count("\n", 0, e0)))
+                text = text[:s0] + blk[:ob + 1] + " return must_not_reject_v(); " + "\n" * blk[ob:cb].count("\n") + blk[cb:] + text[e0:]
             # `//@assume-region /re1/../re2/ [#k] call=".." why=".."`: a statement region is replaced by a call to an `external_body`
             # function of the template whose contract is ASSUMED for that region (listed as such); same control-flow scan as //@outline
             if assumed:
